@@ -23,7 +23,7 @@ ASSUMPTIONS = [
     "BITS_EQUAL byte count >= 1 (the macros pass sizeof); file names and allocator names are non-NULL C strings",
     "the memory dump prints offsets below 65536 with four hex digits (larger leaks widen the column; the bounds theorems do not depend on it)",
 ]
-RULE = ("(a) every failure class constructed directly with operand pairs: equal, equal printed forms, empty, NULL, 10 kB, "
+RULE = ("(a) every failure class of TestFailure.h (UnexpectedExceptionFailure and the plain TestFailure included) constructed directly with operand pairs: equal, equal printed forms, empty, NULL, 10 kB, "
         "non-printable/high bytes, differing at the first/last/after-window position, prefix of each other, case-only differences; "
         "(b) standalone SimpleStringBuffer add/setWriteLimit/resetWriteLimit/clear/addMemoryDump with lengths dense around the "
         "remaining space and the 4095/4096 boundary; MemoryLeakOutputStringBuffer and a private MemoryLeakDetector: 0-40 misuse "
@@ -43,7 +43,7 @@ LEVEL_TEXT = ("Machine-checked Lean 4 theorems over an executable model of the f
               "observations are judged by an independent oracle (textbook renderings).")
 LEVEL_NOTE = ("Trusted: Lean kernel; the hand-written model (validated byte for byte by this run); the extractor; the vsnprintf "
               "contract; SimpleString value semantics (C13). Observed only, not proved: that the compiled code reads only inside the "
-              "operands (ASan on exact-size blocks), the %p/%.7g renderings, UnexpectedExceptionFailure (no operands). "
+              "operands (ASan on exact-size blocks), the %p/%.7g renderings, typeid/demangled exception type names (inputs). "
               "STRCMP_CONTAINS with a NULL operand shows it as an empty string (the conversion happens before the failure class).")
 TECHNIQUE = "Lean 4 bounded-read/invariant proofs over an executable model + byte-exact differential harness (ASan, canary hook) + regenerated formats/constants"
 
@@ -149,7 +149,8 @@ DOUBLES = ["0", "1.5", "-2.25", "1e300", "-1e-300", "nan", "inf", "-inf", "0.1",
 
 def failure_op(rng, contains_raw=False):
     k = rng.choice(["strequal"] * 5 + ["strnocase"] * 3 + ["checkequal"] * 4 + ["binary"] * 3 + ["equals", "equalsss", "contains", "comparison",
-                    "check", "fail", "feature", "longs", "ulongs", "longlongs", "ulonglongs", "sbytes", "bits", "doubles"])
+                    "check", "fail", "feature", "longs", "ulongs", "longlongs", "ulonglongs", "sbytes", "bits", "doubles",
+                    "base", "basemsg", "excunknown", "exc", "exc"])
     t = hx(user_text(rng))
     if k in ("strequal", "strnocase", "equals"):
         e, a, _ = pair(rng)
@@ -164,6 +165,12 @@ def failure_op(rng, contains_raw=False):
         return "f contains %s %s %s" % (hx(e), hx(a), t)
     if k == "fail":
         return "f fail %s" % hx(base_string(rng))
+    if k == "base" or k == "excunknown":
+        return "f " + k
+    if k == "basemsg":
+        return "f basemsg %s" % hx(base_string(rng))
+    if k == "exc":
+        return "f exc %s %s" % (rng.choice(["runtime", "logic", "custom", "nested"]), hx(base_string(rng)))
     if k == "feature":
         return "f feature %s %s" % (hx(base_string(rng)), t)
     if k in ("longs", "longlongs"):
@@ -400,12 +407,17 @@ def det_case(rng, tier, big=False):
             if aim_file and k == nalloc:
                 fl = rng.randint(0, 3000)
             kind = rng.choice(["new", "newarray", "malloc", "malloc", "custom:" + hx(rng.choice([b"pool", b"z" * 50]))])
-            ops.append("det alloc %s %d %s %d %s %d" % (lab, rng.choice([0, 1, 8, 16, 17, 100, 300, rng.randint(0, 300)]),
-                                                        hx(name_bytes(rng, fl)), rng.choice(LINES), kind, rng.randint(0, 255)))
+            if rng.random() < 0.15:      # the overload without a location
+                ops.append("det alloc0 %s %d %s %d" % (lab, rng.choice([0, 1, 16, 17, 300, rng.randint(0, 300)]), kind, rng.randint(0, 255)))
+            else:
+                ops.append("det alloc %s %d %s %d %s %d" % (lab, rng.choice([0, 1, 8, 16, 17, 100, 300, rng.randint(0, 300)]),
+                                                            hx(name_bytes(rng, fl)), rng.choice(LINES), kind, rng.randint(0, 255)))
             labels.append((lab, kind))
         else:
             x = rng.random()
-            if x < 0.6 or not labels:
+            if x < 0.08:
+                ops.append("det freebad0 " + rng.choice(["new", "newarray", "malloc"]))
+            elif x < 0.6 or not labels:
                 ops.append("det freebad %s %d %s" % (hx(name_bytes(rng, name_len(rng))), rng.choice(LINES), rng.choice(["new", "newarray", "malloc"])))
             else:
                 i = rng.randrange(len(labels))
@@ -417,12 +429,18 @@ def det_case(rng, tier, big=False):
                     fk = rng.choice([q for q in ("new", "newarray", "malloc") if q != kind])
                 else:
                     fk = kind
-                ops.append("det free %s %s %s %d" % (lab, fk, hx(name_bytes(rng, name_len(rng))), rng.choice(LINES)))
+                if rng.random() < 0.15:
+                    ops.append("det free0 %s %s" % (lab, fk))
+                else:
+                    ops.append("det free %s %s %s %d" % (lab, fk, hx(name_bytes(rng, name_len(rng))), rng.choice(LINES)))
     if rng.random() < 0.25:
         ops.append("det start")       # clears the buffer (as the plugin does before every test)... allocations so far stay in the table
     if rng.random() < 0.1:
         ops.append("det stop")
     ops.append("det report " + rng.choice(["checking", "checking", "all", "enabled"]))
+    if rng.random() < 0.25:      # misuse messages after the report (after a zero-leak report the limit is still lowered)
+        for _ in range(rng.randint(1, 5)):
+            ops.append("det freebad %s %d %s" % (hx(name_bytes(rng, name_len(rng))), rng.choice(LINES), rng.choice(["new", "malloc"])))
     if rng.random() < 0.3:
         if rng.random() < 0.5:
             ops.append("det start")
@@ -515,6 +533,8 @@ def observe(r, rep):
                 rep.count("buffer.limit_below_filled")
             if filled == 4095:
                 rep.count("buffer.full_4095")
+        elif w[0] == "typename":
+            rep.count("exception.type_names")
         elif w[0] == "notice":
             rep.count("report.notice_%s" % w[1])
         elif w[0] == "fail":
